@@ -252,7 +252,8 @@ def file_info(ctx, nfiles, ndamaged, budget_events):
                 ctx.violation(key, detail, dict(kind="file", item=it["streams"], damage=it.get("damage")))
         for t in r["traces"]:
             ctx.case(key=("fileinfo", json.dumps(it["streams"]), json.dumps(it.get("damage")), t["rs"]))
-            if "damage" not in it and t["ret"] != "STREAM_END":
+            if "damage" not in it and t["ret"] != "STREAM_END" and "fileinfo:ret:" + t["ret"] not in seen:
+                seen.add("fileinfo:ret:" + t["ret"])
                 ctx.violation("fileinfo:ret:" + t["ret"], "valid file, read size %d: %s" % (t["rs"], t["ret"]),
                               dict(kind="file", item=it["streams"], events=t["events"][-5:]))
             hists.append(("file%d%s/rs%d" % (it["id"], "dmg" if "damage" in it else "", t["rs"]), t["events"]))
@@ -284,6 +285,14 @@ def bug_variants(ctx):
         if r.violation not in invs:
             raise MachineryError("IndexContract does not reject the %s behaviour (got %s)\n%s" % (flag, r.violation, r.out[-1500:]))
         ctx.log("MCIndex with %s=TRUE violates %s as it must (%d states)" % (flag, r.violation, r.distinct))
+    cfg = os.path.join(ctx.workdir, "MCFileInfo_BugPadding.cfg")
+    with open(cfg, "w") as f:
+        f.write(open(os.path.join(HERE, "spec", "MCFileInfo.cfg")).read().replace("BugPadding = FALSE", "BugPadding = TRUE"))
+    r = tlc.run("MCFileInfo", cfg=cfg, workers=4, timeout=300)
+    ctx.add_tlc("MCFileInfo(BugPadding)", r, expect_violation=True)
+    if r.violation not in ("ValidDecodes", "TypeOK"):
+        raise MachineryError("MCFileInfo does not reject a decoder that forgets Stream Padding (got %s)\n%s" % (r.violation, r.out[-1500:]))
+    ctx.log("MCFileInfo with BugPadding=TRUE violates %s as it must (%d states)" % (r.violation, r.distinct))
 
 def model_checks(ctx):
     q = ctx.quick
